@@ -20,12 +20,13 @@ from . import tlc
 from .common import Report, Violation
 from .eng_exchange import tla
 
+# MC runs keep only the history summary (KeepLog = FALSE): the history predicates are evaluated as step assertions
+# collected in `bad` (NoBadClause) plus end-of-run invariants
 INVS = {
-    "C12": ["NoBadClause", "Inv_C12_GlobalOrder", "Inv_C12_ClockEqualsEventTime", "Inv_C12_ClockMonotone",
-            "Inv_C12_StageOrder", "Inv_C12_AtMostOnce", "Inv_C12_ExactlyOnce", "Inv_C12_NothingLeft"],
-    "C13": ["NoBadClause", "Inv_C13_NotEarly", "Inv_C13_AtMostOnce", "Inv_C13_Ordered", "Inv_C13_AllRan"],
+    "C12": ["NoBadClause", "Inv_C12_NothingLeft", "Inv_C14_BoundedConcurrency"],
+    "C13": ["NoBadClause", "Inv_C13_AllRan_Summary"],
     "C03": ["NoBadClause", "Inv_C03_NoLookAhead"],
-    "C14": ["Inv_C14_BoundedConcurrency", "Inv_C12_ExactlyOnce", "Inv_C13_AllRan"],
+    "C14": ["Inv_C14_BoundedConcurrency", "Inv_C12_NothingLeft", "Inv_C13_AllRan_Summary"],
 }
 CLAUSE_PROP = {
     "C12_GlobalOrder": "C12", "C12_ClockEqualsEventTime": "C12", "C12_ClockMonotone": "C12", "C12_StageOrder": "C12",
@@ -127,16 +128,20 @@ def random_D(rng: random.Random, profile: str, small: bool = False) -> dict:
     job_progs = [noop_job, noop_job, raising_job, two_seg_job, resched_job]
     derived_pos = [i + 1 for i in range(ns) if is_derived[i]]
     evs, hs = [], []
+    multi = {"used": False}
     tmax = 3 if small else 6
     for i in range(ns):
         if is_derived[i]:
             evs.append([])
         else:
             n = rng.randint(1, 2 if small else 4)
-            evs.append(sorted(rng.randint(1, tmax) for _ in range(n)))
+            evs.append(sorted(rng.randint(1, 2 if small else tmax) for _ in range(n)))
         handlers = []
         for _ in range(rng.randint(1, 2 if small else 3)):
-            nseg = rng.choice([1, 1, 1, 2] if small else [1, 1, 2, 3])
+            nseg = rng.choice([1, 1, 2, 3])
+            if small:      # interleavings explode with suspended handlers: at most one two-segment handler per configuration
+                nseg = 2 if (not multi["used"] and rng.random() < 0.4) else 1
+                multi["used"] = multi["used"] or nseg == 2
             segs = [[] for _ in range(nseg)]
             # derived sources only push "downstream" (to a derived source subscribed later) so that runs terminate
             targets = [p for p in derived_pos if (not is_derived[i]) or p > i + 1]
@@ -148,14 +153,16 @@ def random_D(rng: random.Random, profile: str, small: bool = False) -> dict:
                 segs[rng.randrange(nseg)].append({"op": "raise"})
             handlers.append(new_prog(segs))
         hs.append(handlers)
-    pre = [new_prog([[]] * rng.choice([1, 1, 2])) for _ in range(rng.choice([0, 0, 1] if small else [0, 1, 2]))]
-    post = [new_prog([[]] * rng.choice([1, 1, 2])) for _ in range(rng.choice([0, 0, 1] if small else [0, 1, 2]))]
+    pre = [new_prog([[]] * (1 if small else rng.choice([1, 1, 2]))) for _ in range(rng.choice([0, 0, 1] if small else [0, 1, 2]))]
+    post = [new_prog([[]] * (1 if small else rng.choice([1, 1, 2]))) for _ in range(rng.choice([0, 0, 1] if small else [0, 1, 2]))]
     if rng.random() < 0.2 and pre:
         prog[pre[0] - 1] = [[{"op": "raise"}]]
-    jobs = [{"when": rng.randint(0, tmax + 3), "prog": rng.choice(job_progs)} for _ in range(rng.choice([0, 0, 1, 2, 3] if small else [0, 1, 2, 4]))]
+    if small:
+        job_progs = [noop_job, noop_job, raising_job, resched_job]
+    jobs = [{"when": rng.randint(0, tmax + 3), "prog": rng.choice(job_progs)} for _ in range(rng.choice([0, 0, 1, 2] if small else [0, 1, 2, 4]))]
     resched = any(e.get("op") == "sched" for p in job_progs for seg in prog[p - 1] for e in seg)
     return base_D(ns=ns, evs=evs, hs=hs, pre=pre, post=post, prog=prog, jobs=jobs,
-                  maxc=rng.choice([1, 1, 2, 3] if small else [1, 2, 3, 50]), jobsReschedule=resched,
+                  maxc=rng.choice([1, 1, 2] if small else [1, 2, 3, 50]), jobsReschedule=resched,
                   stopOnErr=False)
 
 
@@ -258,7 +265,7 @@ def check(rep: Report, tier: str, seed: int, prop: str = None):
             fams["jobs"] = fam_c13()
             fams["random"] = [D for D in fam_c12(rng, 40 if quick else 300)]
         elif prop == "C12":
-            fams["random"] = fam_c12(rng, 60 if quick else 500)
+            fams["random"] = fam_c12(rng, 40 if quick else 400)
         elif prop == "C03":
             fams["exchange"] = fam_c03() if not quick else fam_c03()[::3]
             fams["random_exchange"] = [small_exchange(rng) for _ in range(20 if quick else 150)]
@@ -272,7 +279,7 @@ def check(rep: Report, tier: str, seed: int, prop: str = None):
         for name, cfgs in fams.items():
             with open(os.path.join(specdir, f"BtD_MC_{name}.tla"), "w") as f:
                 f.write(mc_module(name, cfgs))
-            cfg = tlc.cfg_text({"Cfg": 0, "Emit": False}, init="MC_Init", next_="Next", invariants=INVS[prop])
+            cfg = tlc.cfg_text({"Cfg": 0, "Emit": False, "KeepLog": False}, init="MC_Init", next_="Next", invariants=INVS[prop])
             res = tlc.run(f"BtD_MC_{name}", cfg, workdir=wd, timeout=3000)
             rep.add_tlc(f"BtDispatcher/MC_{name}", res, {"configurations": len(cfgs), "example": cfgs[0]},
                         "Init chooses one configuration; all interleavings of handler segments and loop steps")
